@@ -228,6 +228,26 @@ CLAIMED.update({
     design='7 (C08)'),
 })
 
+CLAIMED.update({
+ 'C12': dict(
+    text='Machine-checked proofs (Lean 4) in two layers. Synthesis (process model, tied by the C11 lock-step): what an instance reports for a process only '
+         'depends on the last report it holds from every instance, whatever the order, path (snapshot or event) and earlier history - two instances holding '
+         'the same last reports list the same instances and agree on running / not running (C12_same_reports_same_answer, for all admissible histories); the '
+         'stopped-like state displayed may differ (witness). Replication (cluster model extended with the process tables of the Supervisors and the replicated '
+         'database; global lock-step with N real instances incl. the real SupervisorListener.on_process_state / publish / check_instance / load_processes / '
+         'on_process_state_event): events are only accepted from CHECKED / RUNNING peers, only sent to active peers, an accepted event makes the receiver hold '
+         'the reported state. The end-to-end clause "at quiescence every view is true" is REFUTED by two kernel-checked schedules (decide +kernel) found and '
+         'minimized on the real code.',
+    note='Partial: the end-to-end clause is false of model and code (two root causes recorded as known findings: refused-while-CHECKING - which also hits the '
+         'local instance about its own Supervisor - and filtered-while-STOPPED); there is no theorem that these are the ONLY ways of being stale: at quiescence '
+         'every stale entry found on the real cluster is attributed to its cause by the ghost state of the model (fate of the last report), and any other cause '
+         'is a violation. With a last report STOPPING the listing is path-dependent (witness C12_stopping_listing_differs; judged as its own signature). '
+         'Applications are unmanaged in these schedules (no start / stop request); process removal / addition events are not generated yet. '
+         'Trusted: harness/c12.py, harness/cluster.py, Drv/Net.lean, tools/mkwitness_c12.py (data only, re-checked by the kernel).',
+    technique='Lean 4 invariant proofs over histories + kernel-checked refutation witnesses + global lock-step correspondence of a real cluster with processes',
+    design='7 (C12), 12.5'),
+})
+
 NOT_YET = {}
 
 def main():
